@@ -117,6 +117,26 @@ inductive ConnectOutcome where
   | delayedOk (ms : Nat)        -- completes after `ms` (compared with the establishment timeout)
 deriving Repr, DecidableEq
 
+/-- what the SOCKS5 upstream's answer to the CONNECT request means for the tunnel
+(`socks5_forwarder.rs`, `TcpConnector::connect`): RFC 1928 reply codes X'03' network unreachable and X'04' host
+unreachable are "unreachable", X'05' is a refused connection (an I/O error), X'06' TTL expired is a timeout,
+every other failure - and a reply that is not a reply code at all - is "some reason" -/
+inductive SocksAnswer where
+  | reply (code : Nat)          -- a well-formed reply with this REP byte
+  | closed                      -- the upstream closed the connection / I/O error in the dialogue
+  | malformed                   -- protocol error (bad version, unknown REP / ATYP)
+deriving Repr, DecidableEq
+
+def socksOutcome : SocksAnswer → ConnectOutcome
+  | .reply 0 => .ok
+  | .reply 3 => .err .hostUnreachable
+  | .reply 4 => .err .hostUnreachable
+  | .reply 5 => .err .io
+  | .reply 6 => .err .timeout
+  | .reply _ => .err .other
+  | .closed => .err .io
+  | .malformed => .err .other
+
 structure Env where
   connect : ConnectOutcome
   establishTimeoutMs : Nat
